@@ -447,12 +447,12 @@ def qtlc(cfg, **kw):
     return vlib.tlc(QSPEC, kw.pop("module", "QueueConn"), cfg, **kw)
 
 
-def run_queue_cases(chk, target, cases, tag):
+def run_queue_cases(chk, target, cases, tag, T=2):
     d = vlib.scratch("queue")
     inp, outp = os.path.join(d, tag + ".in.ndjson"), os.path.join(d, tag + ".out.ndjson")
     vlib.write_ndjson(inp, cases)
     r = vlib.go_test_inpkg("common/turbotunnel", [INPKG], "TestVerifQueue$", timeout=900,
-                           env={"VERIF_IN": inp, "VERIF_OUT": outp, "VERIF_TARGET": target, "VERIF_T": "2", "VERIF_SEED": str(chk.seed)})
+                           env={"VERIF_IN": inp, "VERIF_OUT": outp, "VERIF_TARGET": target, "VERIF_T": str(T), "VERIF_SEED": str(chk.seed)})
     if r.rc != 0 or r.timed_out or not os.path.exists(outp):
         raise vlib.Inconclusive("in-package queue harness failed (%s):\n%s" % (tag, r.out[-3000:]))
     summary, reported = None, 0
@@ -460,7 +460,7 @@ def run_queue_cases(chk, target, cases, tag):
         if "summary" in res:
             summary = res["summary"]
         elif reported < 6:
-            if chk.violation("C17/" + res["sig"], res["detail"], {"mode": "queue", "target": target, "case": res.get("case")}):
+            if chk.violation("C17/" + res["sig"], res["detail"], {"mode": "queue", "target": target, "T": T, "case": res.get("case")}):
                 reported += 1
     if summary is None:
         raise vlib.Inconclusive("queue harness wrote no summary (%s)" % tag)
@@ -480,7 +480,7 @@ def queue_tlc_start(chk, only):
             futs[name] = ex.submit(qtlc, name, workers=(8 if name == "MC_big.cfg" else 4), timeout=1500, keep_prints=False, coverage=False)
             time.sleep(0.15)
     if only is None or "queue_replay" in only:
-        for name in ("Gen_inner_%d.cfg" % n, "Gen_conn_%d.cfg" % n, "Gen_fullsend.cfg", "Gen_fullrecv.cfg"):
+        for name in ("Gen_inner_%d.cfg" % n, "Gen_inner_T1_%d.cfg" % n, "Gen_conn_%d.cfg" % n, "Gen_fullsend.cfg", "Gen_fullrecv.cfg"):
             futs[name] = ex.submit(qtlc, name, workers=1, timeout=1500)
             time.sleep(0.15)
     ex.shutdown(wait=False)
@@ -500,15 +500,16 @@ def queue_part(chk, args, only, futs):
         elif r.error:
             raise vlib.Inconclusive("QueueConn case generation %s failed: %s" % (name, r.error))
     if only is None or "queue_replay" in only:
-        for name, target in (("Gen_inner_%d.cfg" % n, "inner"), ("Gen_conn_%d.cfg" % n, "conn"), ("Gen_fullsend.cfg", "conn"), ("Gen_fullrecv.cfg", "conn")):
+        for name, target in (("Gen_inner_%d.cfg" % n, "inner"), ("Gen_inner_T1_%d.cfg" % n, "inner"), ("Gen_conn_%d.cfg" % n, "conn"),
+                             ("Gen_fullsend.cfg", "conn"), ("Gen_fullrecv.cfg", "conn")):
             cases = res[name].prints
             floor = 1 if "full" in name else 1000
             if len(cases) < floor:
                 chk.fail("vacuous: %s produced %d cases" % (name, len(cases)))
                 continue
-            s = run_queue_cases(chk, target, cases, name[:-4])
+            s = run_queue_cases(chk, target, cases, name[:-4], T=(1 if "_T1_" in name else 2))
             chk.note("QueueConn %s: %d operation sequences (%d steps) replayed on the real %s" % (
-                name, s["cases"], s["steps"], "clientMapInner (explicit clock)" if target == "inner" else "QueuePacketConn"))
+                name, s["cases"], s["steps"], ("clientMapInner (explicit clock, timeout %d ticks)" % (1 if "_T1_" in name else 2)) if target == "inner" else "QueuePacketConn"))
             if "full" not in name:
                 chk.sample({"queue_case": cases[len(cases) // 2]})
     if only is None or "sweeper" in only:
@@ -596,7 +597,7 @@ def replay(chk, path):
     with open(path) as fh:
         rp = json.load(fh)["replay"]
     if rp.get("mode") == "queue":
-        s = run_queue_cases(chk, rp["target"], [rp["case"]], "replay")
+        s = run_queue_cases(chk, rp["target"], [rp["case"]], "replay", T=rp.get("T", 2))
         chk.note("replayed 1 queue case: %s" % s)
     elif rp.get("mode") == "sweeper":
         sweeper(chk)
